@@ -228,6 +228,9 @@ def run_audit(prop, seed):
         for r in ex.map(lambda j: selftest.run_one(*j), jobs):
             out.append(r)
     res = {"variants": len(out), "flagged": 0, "benign_silent": 0, "missed": [], "false_alarms": [], "stale": [], "analysis_errors": []}
+    res["whole_tree_rewrites"] = run_rewrites(prop)
+    for k in res["whole_tree_rewrites"]["not_silent"]:
+        res["false_alarms"].append(f"rewrite-{k}")
     for r in out:
         v, d = selftest.judge(r)
         if v in ("CAUGHT", "CAUGHT-OTHER"):
@@ -243,6 +246,31 @@ def run_audit(prop, seed):
         else:
             res["analysis_errors"].append(r["id"])
     return res
+
+
+def run_rewrites(prop):
+    """Behaviour-preserving rewrites of the WHOLE current tree (sa/rewrites.py); the check must stay silent on each."""
+    import concurrent.futures as cf
+    import shutil
+    import subprocess
+    import tempfile
+    from . import rewrites
+
+    def one(kind):
+        tmp = tempfile.mkdtemp(prefix="sa-rw-")
+        try:
+            shutil.copytree(os.path.join(os.environ.get("VERIF_REPO", "/repo"), "src"), os.path.join(tmp, "src"))
+            rewrites.transform(tmp, kind)
+            q = subprocess.run([sys.executable, "-B", "-m", "sa.run", prop, "--repo", tmp, "--no-evidence"], cwd=VERIF, capture_output=True, text=True)
+            return kind, q.returncode
+        except Exception as e:  # a rewrite that cannot be produced is reported, not hidden
+            return kind, f"{type(e).__name__}: {e}"
+        finally:
+            shutil.rmtree(tmp, ignore_errors=True)
+
+    with cf.ThreadPoolExecutor(max_workers=9) as ex:
+        rs = list(ex.map(one, rewrites.KINDS))
+    return {"kinds": rewrites.KINDS, "silent": [k for k, rc in rs if rc == 0], "not_silent": [k for k, rc in rs if rc != 0]}
 
 
 def write_evidence(prop, tier, seed, ctx, status, err, violations, known_hits, wall):
